@@ -398,6 +398,76 @@ class BlockSelection(Scenario):
             return "ok"
 
 
+class OctreeSelection(Scenario):
+    """Octree (rotation 0): mask_by_extent on the centres of its (I, J, K, size) records; copy_from_extent keeps the octree
+    and blanks the values of the cells outside the box"""
+    pid = "C13"
+    builtins_for = (UTILS, "geoh5py.objects.octree")
+
+    def body(self, cx):
+        from geoh5py.workspace import Workspace
+        from geoh5py.objects import Octree
+        (nu, nv, nw), d, inverse = self.params["counts"], self.params["d"], self.params["inverse"]
+        ws = Workspace()
+        oc = Octree.create(ws, origin=[0.0, 0.0, 0.0], u_count=nu, v_count=nv, w_count=nw, u_cell_size=1.0, v_cell_size=1.0,
+                           w_cell_size=1.0)
+        recs = [tuple(int(x) for x in r) for r in oc.octree_cells.tolist()]
+        n = len(recs)
+        od = oc.add_data({"od": {"values": real_np.zeros(n), "association": "CELL"}})
+        oi = oc.add_data({"oi": {"values": (real_np.arange(n) + 50).astype("int32"), "association": "CELL", "type": "integer"}})
+        patch.detach(ws, oc, od, oi)
+        with self.engine(cx) as X:
+            su, sv, sw = cx.real("su"), cx.real("sv"), cx.real("sw")
+            for z in (su, sv, sw):
+                cx.assume(z > 0)
+            o = [cx.real(f"o{a}") for a in "xyz"]
+            D = [cx.real(f"g{i}") for i in range(n)]
+            oc.octree_cells = mk_array(X, [x for r in recs for x in r], (n, 4), "int32")
+            oc.u_cell_size, oc.v_cell_size, oc.w_cell_size = su, sv, sw
+            oc.origin = list(o)
+            od.values = mk_array(X, D, (n,), "float64")
+            oi.values = mk_array(X, [q + 50 for q in range(n)], (n,), "int32")
+            cen = [[o[0] + (i + m / 2) * su, o[1] + (j + m / 2) * sv, o[2] + (k + m / 2) * sw] for (i, j, k, m) in recs]
+            lo, hi, ext = _box(cx, X, d)
+            qual = [_inside(p, lo, hi, inverse) for p in cen]
+            miss = _bbox_miss(cen, lo, hi)
+            mask = oc.mask_by_extent(ext, inverse=inverse)
+            if mask is None:
+                cx.prove(Or(miss, Not(Or(qual))), "None only if the box misses the bounding box or nothing qualifies",
+                         "None only when allowed")
+            else:
+                me = elems(mask)
+                cx.prove(shape(mask) == (n,) and And([Iff(me[q], qual[q]) for q in range(n)]),
+                         "octree cell-centre mask == closed-box predicate", "mask exact")
+            new = oc.copy_from_extent(ext, inverse=inverse)
+            if new is None:
+                cx.prove(Or(miss, Not(Or(qual))), "copy: None only if the box misses the bounding box or nothing qualifies",
+                         "None only when allowed")
+                return "none"
+            cx.prove(shape(new.octree_cells)[0] == n and And([eq(a, b) for a, b in zip(elems(new.centroids), [x for p in cen for x in p])]),
+                     "the copy keeps the octree cells and their centres", "copy geometry")
+            kids = [k_ for k_ in new.children if getattr(k_, "name", None) == "od"]
+            cx.prove(len(kids) == 1 and shape(kids[0].values) == (n,), "copied data has one value per cell", "copy data")
+            if len(kids) == 1 and shape(kids[0].values) == (n,):
+                vals = elems(kids[0].values)
+                for q in range(n):
+                    if is_nan(vals[q]):
+                        cx.prove(Not(qual[q]), f"cell {q} blanked only outside the selection", "copy data")
+                    else:
+                        cx.prove(And(qual[q], eq(vals[q], D[q])), f"cell {q} keeps its value iff selected", "copy data")
+            kid = [k_ for k_ in new.children if getattr(k_, "name", None) == "oi"]
+            cx.prove(len(kid) == 1 and shape(kid[0].values) == (n,), "copied integer data has one value per cell", "copy data")
+            if len(kid) == 1 and shape(kid[0].values) == (n,):
+                vv = elems(kid[0].values)
+                for q in range(n):
+                    if vv[q] == q + 50:
+                        cx.prove(qual[q], f"oi: cell {q} keeps its value only when selected", "copy data (other kinds)")
+                    else:
+                        cx.prove(And(Not(qual[q]), vv[q] == -2147483648), f"oi: cell {q} outside the selection holds the no-data code",
+                                 "copy data (other kinds)")
+            return "ok"
+
+
 class DrillholeSelection(Scenario):
     """a drillhole is selected by its collar (all three coordinates for a 3-D box)"""
     pid = "C13"
@@ -495,7 +565,7 @@ def scenarios(tier, seed):
               GridSelection(nu=4, nv=2, d=2, inverse=False, rot=("3/5", "4/5")),
               DataSelection(kind="curve", n=3, m=2, d=2, inverse=True),
               DataSelection(kind="surface", n=3, m=1, d=3, inverse=False),
-              BlockSelection(shape=(2, 1, 2), d=3, inverse=False),
+              BlockSelection(shape=(2, 1, 2), d=3, inverse=False), OctreeSelection(counts=(2, 1, 1), d=3, inverse=False),
               DrillholeSelection(d=3, inverse=False), DrillholeSelection(d=2, inverse=True),
               GroupSelection(n=2, d=2, inverse=True, nested=False), GroupSelection(n=2, d=3, inverse=False, nested=True)]
     else:
@@ -514,6 +584,8 @@ def scenarios(tier, seed):
               GridSelection(nu=2, nv=4, d=2, inverse=False, rot=("5/13", "12/13"))]
         S += [BlockSelection(shape=(2, 1, 2), d=3, inverse=False), BlockSelection(shape=(2, 2, 1), d=2, inverse=True),
               BlockSelection(shape=(1, 2, 2), d=3, inverse=True), BlockSelection(shape=(2, 2, 2), d=3, inverse=False)]
+        S += [OctreeSelection(counts=(2, 1, 1), d=3, inverse=False), OctreeSelection(counts=(2, 2, 1), d=2, inverse=True),
+              OctreeSelection(counts=(4, 2, 1), d=3, inverse=False), OctreeSelection(counts=(2, 2, 2), d=3, inverse=True)]
         for d in (2, 3):
             for inv in (False, True):
                 S.append(DrillholeSelection(d=d, inverse=inv))
@@ -535,11 +607,11 @@ def main(tier, seed):
             "grid rotation: 0, or an exact rational unit-circle point substituted for cos/sin of the angle (listed stub); dip 0",
             "cell sizes > 0",
         ],
-        outside=["GeoImage, octrees, rotated block models, drillhole groups", "arbitrary (irrational) rotations and non-zero dip",
+        outside=["GeoImage, rotated octrees and block models, drillhole groups", "arbitrary (irrational) rotations and non-zero dip",
                  "shapes larger than the bounds", "float rounding at box faces"],
         bounds={"quick": "<=3 points, <=2 cells, boxes in 2-D and 3-D, inverse on/off; Grid2D 2x2, 3x1 and a rotated 4x2; data-level masks on curve / surface children",
                 "thorough": "<=4 points, <=3 cells; Grid2D up to 3x3 / 4x2, three rational rotations"}[tier],
-        expected_outcomes={"VertexSelection": {"ok"}, "GridSelection": {"ok"}, "DataSelection": {"ok"}, "BlockSelection": {"ok"}, "DrillholeSelection": {"ok"},
+        expected_outcomes={"VertexSelection": {"ok"}, "GridSelection": {"ok"}, "DataSelection": {"ok"}, "BlockSelection": {"ok"}, "OctreeSelection": {"ok", "none"}, "DrillholeSelection": {"ok"},
                            "GroupSelection": {"ok"}},
         timeout_ms=10000 if tier == "quick" else 30000,
     )
